@@ -6,16 +6,16 @@ CONSTANTS
   SelectMode = "any"
   LegacyBreak = FALSE
   MetricDefs <- TreeMetrics
-  SlotDefs <- TreeSlots5
+  SlotDefs <- TreeSlots4
   Sizes <- Sz13
-  WWs = {1, 2}
+  WWs = {1}
   MWs = {1}
   NWs = {1, 2}
   GWs = {1}
   Buds = {0}
   NSAs = {FALSE}
   OptSets <- OptsTreeFull
-  Budgets = {5}
+  Budgets = {3}
 VIEW MCView
 INVARIANTS TypeOK AtMostOnce ExactlyOnce Unbiased KeptRowsFactorGE1 NoSampleAgentKept SameFactorInLeaf FitsNothingSampled FairShare FixedWithinBudget FairShareRemaining FitIsJustified Monotone KeptWithinBudget QuotaWithinTotal QuotaProportional QuotaFitIsSize QuotaWithinTotalAnyRounding
 CHECK_DEADLOCK FALSE
